@@ -11,7 +11,7 @@ FUNCTIONS = ["BoundedAttributes.__init__/__setitem__/__delitem__/__getitem__/__i
 STUBS = ["os.environ replaced by a dict in deep.api.resource", "load_plugins -> the harness' provider plugins",
          "Deep built directly around real ConfigService with no-op trigger handler / grpc / poll start",
          "PollConfigStub -> recording fake; real protobuf PollRequest", "logging -> no-op"]
-OUTSIDE = ["environment values containing '%' (url-unquoting is the identity otherwise)",
+OUTSIDE = [
            "concurrent mutation of one BoundedAttributes (its lock is not modelled)"]
 
 # ------------------------------------------------------------------------------------------------------------------
@@ -314,7 +314,8 @@ def merge_chain(n: int, m0: int, m1: int, m2: int, u0: int, u1: int, u2: int, a0
     return ""
 
 
-ENV_ATTRS = [None, "", "a=1", "a=1,b=2", "a", "=x", "service.name=envsvc", " a = 1 ", "a=1,a=2", "telemetry.sdk.name=zz"]
+ENV_ATTRS = [None, "", "a=1", "a=1,b=2", "a", "=x", "service.name=envsvc", " a = 1 ", "a=1,a=2", "telemetry.sdk.name=zz",
+             "owners=alice%2Cbob,b=2", "k=a%3Db", "tags=x%2Cservice.name%3Devil", "k=%20x%20,j=100%25"]
 ENV_SN = [None, "", "sn"]
 CODE = [None, {"a": "code"}, {"service.name": "codesvc"}, {"process.executable.name": "exe"}]
 
@@ -326,7 +327,8 @@ def _ref_env(text):
             if "=" not in item:
                 continue
             k, v = item.split("=", 1)
-            out[k.strip()] = v.strip()
+            from urllib.parse import unquote
+            out[k.strip()] = unquote(v.strip())        # items are separated FIRST, then each value is url-decoded
     return out
 
 
@@ -335,7 +337,7 @@ def create(ei: int, si: int, ci: int, pk: int) -> str:
     Resource.create under a controlled environment, then Deep.start's plugin merge (0-2 providers, one may raise):
     SDK keys and a service name always present; built-in < environment < code < plugins, key by key; the resource in
     the poll request is that merge.
-    PRE: 0 <= ei <= 9 and 0 <= si <= 2 and 0 <= ci <= 3 and 0 <= pk <= 4
+    PRE: 0 <= ei <= 13 and 0 <= si <= 2 and 0 <= ci <= 3 and 0 <= pk <= 4
     POST: _ == ""
     """
     world.begin_path()
@@ -521,6 +523,6 @@ CONDITIONS = [
     dict(fn="merge_chain", cubes=["n == %d and u0 == %d and u1 == %d" % (n, a, b) for n in (2, 3) for a in range(3) for b in range(3)],
          twins=["reach", "mutant:merge_other_first@n == 2 and u0 == 0 and u1 == 0"],
          bounds="chains of 2-3 resources, each any subset of keys {a,b} with distinct values, schema URL in {'',u1,u2}"),
-    dict(fn="create", cubes=["ei == %d and si == %d" % (e, s) for e in range(10) for s in range(3)], twins=["reach"],
-         bounds="DEEP_RESOURCE_ATTRIBUTES from a pool of 10 texts, DEEP_SERVICE_NAME in {absent,'',sn}, 4 code attribute sets, 5 plugin-provider sets (one raising)"),
+    dict(fn="create", cubes=["ei == %d and si == %d" % (e, s) for e in range(14) for s in range(3)], twins=["reach"],
+         bounds="DEEP_RESOURCE_ATTRIBUTES from a pool of 14 texts (incl. percent-encoded commas / equals signs / spaces), DEEP_SERVICE_NAME in {absent,'',sn}, 4 code attribute sets, 5 plugin-provider sets (one raising)"),
 ]
